@@ -71,10 +71,11 @@ MUTANTS = [
     {"name": "revert-2c2374b-safe-repr-of-items", "revert": "2c2374b", "props": ["C04"]},
     {"name": "revert-41cd943-unhashable-discriminator", "revert": "41cd943", "props": ["C04"]},
     {"name": "revert-271e688-recheck-after-decimal_places", "revert": "271e688", "props": ["C01"]},
-    {"name": "revert-35e1088-int-lax-fractional-step", "revert": "35e1088", "props": ["C01"]},
+    {"name": "revert-35e1088-int-lax-fractional-step", "props": ["C01"], "edits": [{"file": R, "old": "            if isinstance(value, int) and not isinstance(of, int):\n                # a fractional step on an int rule: the result has to stay an integer", "new": "            if False:\n                # a fractional step on an int rule: the result has to stay an integer"}]},
     {"name": "revert-b64ef33-local-class-optional-late-name", "revert": "b64ef33", "props": ["C17"]},
     {"name": "revert-0c527f8-subclass-before-base", "revert": "0c527f8", "props": ["C17"]},
     {"name": "revert-3172241-generator-whole-string-annotation", "revert": "3172241", "props": ["C17"]},
+    {"name": "revert-47d4c1c-exact-int-modulo", "revert": "47d4c1c", "props": ["C01"]},
     # ---- C01 ------------------------------------------------------------------------------
     {"name": "c01-seq-first-element-unconverted", "props": ["C01"], "edits": [{"file": R, "old": """                try:
                     result.append(
